@@ -58,7 +58,7 @@ def run_case(case, ctx):
         sd = h.sys.simulation_data
         now = h.env.now
         eq = [(r[0], r[1], r[2]) for r in sd.get('enter_queue', {}).get('m', [])]
-        st = [(r[0], r[1], r[2]) for r in sd.get('start_work_order', {}).get('m', [])]
+        st = [(r[0], r[1], list(r[2]) if isinstance(r[2], tuple) else r[2]) for r in sd.get('start_work_order', {}).get('m', [])]
         fi = sd.get('finish_work_order', {}).get('m', [])
         if st != [(t, tg, tag) for (t, tg, tag) in h.starts_log]:
             raise Violation('C15.work-order', f'start_work_order records {st[:5]} differ from the start hook occurrences '
